@@ -698,6 +698,47 @@ def _any_all_to_loops(tree: ast.Module) -> None:
             fn.body = conv(fn.body, False)
 
 
+def _return_any_all(tree: ast.Module) -> None:
+    """C16r  `return all(E for T in IT)` is `for T in IT: if not E: return False` / `return True` (and `return any(...)` the mirror image): the same
+    elements tested in the same order, stopping at the first decisive one.  Only as a whole return value (the reference tree has none); the loop
+    variables become function locals, which nothing can observe after a return."""
+    def conv(body):
+        out = []
+        for st in body:
+            for fld in ("body", "orelse", "finalbody"):
+                b = getattr(st, fld, None)
+                if isinstance(b, list) and b and isinstance(b[0], ast.stmt):
+                    setattr(st, fld, conv(b))
+            if isinstance(st, ast.Try):
+                for h in st.handlers:
+                    h.body = conv(h.body)
+            v = st.value if isinstance(st, ast.Return) else None
+            if isinstance(v, ast.Call) and isinstance(v.func, ast.Name) and v.func.id in ("any", "all") and len(v.args) == 1 and not v.keywords \
+                    and isinstance(v.args[0], (ast.GeneratorExp, ast.ListComp)) and len(v.args[0].generators) == 1 and not v.args[0].generators[0].is_async \
+                    and isinstance(v.args[0], ast.GeneratorExp):
+                g = v.args[0].generators[0]
+                is_all = v.func.id == "all"
+                cond = v.args[0].elt
+                if is_all:
+                    cond = ast.copy_location(ast.UnaryOp(op=ast.Not(), operand=cond), cond)
+                inner: ast.stmt = ast.copy_location(ast.If(test=cond, body=[ast.copy_location(ast.Return(value=ast.Constant(value=not is_all)), st)], orelse=[]), st)
+                for c_ in reversed(g.ifs):
+                    inner = ast.copy_location(ast.If(test=c_, body=[inner], orelse=[]), st)
+
+                class St(ast.NodeTransformer):
+                    def visit_Name(self, n: ast.Name):
+                        return ast.copy_location(ast.Name(id=n.id, ctx=ast.Store()), n)
+                tgt = St().visit(copy.deepcopy(g.target))
+                out.append(ast.copy_location(ast.For(target=tgt, iter=g.iter, body=[inner], orelse=[], lineno=st.lineno), st))
+                out.append(ast.copy_location(ast.Return(value=ast.Constant(value=is_all)), st))
+                continue
+            out.append(st)
+        return out
+    for fn in ast.walk(tree):
+        if isinstance(fn, (ast.FunctionDef, ast.AsyncFunctionDef)):
+            fn.body = conv(fn.body)
+
+
 def _merge_same_test_ifs(tree: ast.Module) -> None:
     """C22: two adjacent if statements with the same pure test (names, attribute chains, constants, comparisons of those), whose branches do not assign what
     the test reads, are one if statement with the branches concatenated"""
@@ -1036,6 +1077,8 @@ def canonicalise(tree: ast.Module, module: str = "") -> ast.Module:
         tree = _DropAnn().visit(tree)
     if os.environ.get("JV_CANON_C27", "1") == "1":
         _hoist_walrus(tree)
+    if os.environ.get("JV_CANON_C16R", "1") == "1":
+        _return_any_all(tree)
     if os.environ.get("JV_CANON_C28", "1") == "1":
         from .renames import reference as _ref
         _bool_tables(tree, {q.split(":", 1)[1] for q in _ref()[1] if q.startswith(module + ":")})
